@@ -153,6 +153,45 @@ Theorem C17_replayed_response_rejected :
     length n0 = length n -> n0 = n.
 Proof. exact check_fresh. Qed.
 
+(** A reply the server made under another nonce of the same length (a man in the middle
+    swapped the nonce of the request) is refused, whatever records accompany it. *)
+Theorem C17_reply_for_other_nonce_refused :
+  forall mac, InjectiveMac mac ->
+  forall s n m rs rs',
+    length m = length n -> m <> n -> check_hmac mac s n rs' (shared_tag mac s m rs) = false.
+Proof. exact other_nonce_refused. Qed.
+Print Assumptions C17_reply_for_other_nonce_refused.
+
+(** Freshness over a history.  [reads] lists, in order, the nonce each read of one client
+    sent and the records it was answered with.  PREMISE: [nonces_fresh] — every nonce is 32
+    bytes and was not used before in this history.  This is a fact about the client code
+    (PrivClient::get, ExternalPersistHelper::new_nonce and their callers); the driver evaluates
+    this very function on the nonces the harness sees on the wire in every run.  Then the
+    reply to read i is refused as the answer to any other read j (in particular any later
+    one: rollback by replay), whatever records the man in the middle presents with it. *)
+Theorem C17_replayed_reply_refused_in_fresh_history :
+  forall mac, InjectiveMac mac ->
+  forall s (reads : list (bytes * list record)) i j ni rsi nj rsj rs',
+    nonces_fresh (map fst reads) = true ->
+    nth_error reads i = Some (ni, rsi) -> nth_error reads j = Some (nj, rsj) -> i <> j ->
+    check_hmac mac s nj rs' (shared_tag mac s ni rsi) = false.
+Proof. exact replay_refused. Qed.
+Print Assumptions C17_replayed_reply_refused_in_fresh_history.
+
+(** The premise is necessary: when a nonce repeats (e.g. every read sends the empty nonce),
+    the reply recorded at the earlier read, with its stale records, is accepted at the later
+    one — for every MAC — and [nonces_fresh] says so. *)
+Example C17_stale_reply_accepted_without_fresh_nonce :
+  (forall mac s n rs_old, check_hmac mac s n rs_old (shared_tag mac s n rs_old) = true) /\
+  nonces_fresh [[]; []] = false /\
+  nonces_fresh [repeat 7 32; repeat 7 32] = false /\
+  nonces_fresh [repeat 7 32; repeat 8 31] = false /\
+  nonces_fresh [repeat 7 32; repeat 8 32; 9 :: repeat 7 31] = true.
+Proof.
+  split; [exact stale_reply_accepted_on_repeated_nonce|].
+  repeat split; vm_compute; reflexivity.
+Qed.
+
 (** The client tag of a put is never the server tag of a put. *)
 Theorem C17_client_server_separated :
   forall mac, InjectiveMac mac ->
